@@ -22,6 +22,20 @@ NO_NEXT = ['x', 0, []]
 PY_WORKERS = int(os.environ.get('VERIF_PY_WORKERS', '0') or 0) or max(2, min(12, (os.cpu_count() or 4) - 2))
 
 
+class phase:
+  """with phase(chk, 'name'): ...  -> chk.notes['phase_s'][name] = seconds (measured)."""
+
+  def __init__(self, chk, name):
+    self.chk, self.name = chk, name
+
+  def __enter__(self):
+    self.t0 = time.time()
+
+  def __exit__(self, *a):
+    self.chk.notes.setdefault('phase_s', {})[self.name] = round(time.time() - self.t0, 1)
+    return False
+
+
 # --------------------------------------------------------------------------- abstract spec -> pg.geno
 def _pg():
   import pyglove as pg  # pylint: disable=import-outside-toplevel
@@ -315,7 +329,9 @@ def laws_parallel(module: str, cfg: str, obs: List[dict], nchunks: int, name: st
   def one(k):
     ch = chunks[k]
     out = tlc.workdir(f'lawsout/{name}-{k}') / 'fail.json'
-    r = tlc.check_with_json(module, cfg, [obs[i] for i in ch], name=f'{name}-{k}', env={'OUT_FILE': str(out)},
+    # deep (non tail) recursion over whole iteration sequences needs a larger Java thread stack
+    r = tlc.check_with_json(module, cfg, [obs[i] for i in ch], name=f'{name}-{k}',
+                            env={'OUT_FILE': str(out), 'JAVA_TOOL_OPTIONS': '-Xss512m'},
                             timeout=timeout, workers=1)
     if not r.ok or not out.exists():
       raise tlc.TLCError(f'{module}/{cfg}: law evaluation did not complete:\n' + r.out[-3000:])
